@@ -129,3 +129,60 @@ Proof.
     destruct Ht as [-> | ->]; reflexivity.
   - split; [lia|]. assert (0 < 2 ^ 64) by (apply Z.pow_pos_nonneg; lia). lia.
 Qed.
+
+(* ---- the complete final state for a directive without n$: every argument consumed, the va_arg
+   log is exactly "*", ".*", the converted value; the positional cache is untouched *)
+Definition value_argty (d : directive) : list argty :=
+  match d_conv d with
+  | Cd | Ci | Cu | Co | Cx | CX => [int_argty (d_len d)]
+  | Cc => [ATInt]
+  | Cs | Cp => [ATPtr]
+  | Cpct => []
+  end.
+
+Theorem printf_nopos_run : forall d v,
+  d_pos d = None -> in_grammar d = true -> fits d v = true ->
+  run_printf (mem_of d v) (render d) (args_of d v) cache_init
+  = (mk_ps (iso_printf d v) (mk_vs [] (star_pops d ++ value_argty d) cache_init 0), Ok tt).
+Proof.
+  intros d v Hpos Hgr Hfit.
+  destruct (d_conv d) eqn:Ec.
+  all: try (
+    assert (Hne : d_conv d <> Cpct) by (rewrite Ec; discriminate);
+    destruct (in_grammar_parts d Hgr Hne) as [Hwok Hpok];
+    destruct (fits_parts d v Hfit) as [Hwfit Hpfit];
+    unfold run_printf, printf_format;
+    rewrite (args_of_split d v Hpos)).
+  1-6: (* integers *)
+    assert (Hint : is_int_conv (d_conv d) = true) by (rewrite Ec; reflexivity);
+    pose proof (agent_int (mem_of d v) d v [] [] ([] ++ star_pops d) cache_init 0 Hint Hgr) as Hag;
+    rewrite app_nil_r in Hag;
+    rewrite (format_render (agent (mem_of d v)) d v [] (value_slot d v) [] cache_init 0 _ Hpos Hne Hwok Hpok Hwfit Hpfit Hag);
+    unfold value_argty; rewrite Ec; reflexivity.
+  - (* c *)
+    pose proof (agent_char (mem_of d v) d v [] [] ([] ++ star_pops d) cache_init 0 Ec Hgr) as Hag.
+    assert (Hvs : value_slot d v = [slot32 (a_int v)]) by (unfold value_slot; rewrite Ec; reflexivity).
+    rewrite <- Hvs in Hag. change 99%N with (conv_char Cc) in Hag. rewrite <- Ec in Hag.
+    rewrite (format_render (agent (mem_of d v)) d v [] (value_slot d v) [] cache_init 0 _ Hpos Hne Hwok Hpok Hwfit Hpfit Hag).
+    unfold value_argty; rewrite Ec; reflexivity.
+  - (* s *)
+    pose proof (agent_str d v [] [] ([] ++ star_pops d) cache_init 0 Ec Hgr Hfit) as Hag.
+    assert (Hvs : value_slot d v = [str_addr]) by (unfold value_slot; rewrite Ec; reflexivity).
+    rewrite <- Hvs in Hag. change 115%N with (conv_char Cs) in Hag. rewrite <- Ec in Hag.
+    rewrite (format_render (agent (mem_of d v)) d v [] (value_slot d v) [] cache_init 0 _ Hpos Hne Hwok Hpok Hwfit Hpfit Hag).
+    unfold value_argty; rewrite Ec; reflexivity.
+  - (* p *)
+    pose proof (agent_ptr (mem_of d v) d v [] [] ([] ++ star_pops d) cache_init 0 Ec Hgr Hfit) as Hag.
+    assert (Hvs : value_slot d v = [slot64 (a_int v)]) by (unfold value_slot; rewrite Ec; reflexivity).
+    rewrite <- Hvs in Hag. change 112%N with (conv_char Cp) in Hag. rewrite <- Ec in Hag.
+    rewrite (format_render (agent (mem_of d v)) d v [] (value_slot d v) [] cache_init 0 _ Hpos Hne Hwok Hpok Hwfit Hpfit Hag).
+    unfold value_argty; rewrite Ec; reflexivity.
+  - (* %% *)
+    unfold in_grammar in Hgr. rewrite Ec in Hgr.
+    destruct (d_flags d) eqn:Efl; [|destruct (d_pos d); discriminate].
+    destruct (d_width d) eqn:Ew; try (destruct (d_pos d); discriminate).
+    destruct (d_prec d) eqn:Ep; try (destruct (d_pos d); discriminate).
+    destruct (d_len d) eqn:El; try (destruct (d_pos d); discriminate).
+    unfold iso_printf, args_of, value_slot, mem_of, render, star_pops, value_argty.
+    rewrite Hpos, Ec, Ew, Ep. reflexivity.
+Qed.
